@@ -232,6 +232,8 @@ def check(ctx):
     from .. import fixtures
     fixtures.lazy_detector(ctx, "R3", Lazy, recording_edges)
     rule_not_recording(ctx, E, lazy.prov)
+    from .. import provrules
+    provrules.rule_reporter_ready(ctx, E, "R4")
 
 
 def rule_not_recording(ctx, E, prov):
